@@ -97,5 +97,7 @@ def synchronize_terminal_measurements(
     ret.batch_remove(terminal_measurements)
     if ret[-1] and after_other_operations:
         ret.append(circuits.Moment())
+    # Keep the moment order, it is the record order of measurements that share a key.
+    terminal_measurements.sort(key=lambda index_and_op: index_and_op[0])
     ret[-1] = ret[-1].with_operations(op for _, op in terminal_measurements)
     return ret
